@@ -42,6 +42,35 @@ type c19Case struct {
 
 const c19Budget = 2_000_000
 
+// c19MaxWait bounds the waiting (time.Sleep, timers) the handling of one request may ASK for; it equals the
+// server's own write timeout.  The quantity is the sum of the requested durations, not elapsed time.
+const c19MaxWait = 10 * time.Second
+
+// seriesFaults are request series of length 40: the same request (or a rotation of three) over and over, ended
+// by a well-formed one for the same secret - anything that keeps a tally per client, secret or path (throttles,
+// lock-outs, growing tables) shows its worst case only after many repetitions.
+func seriesFaults() [][]fault {
+	s2 := ref.B32Encode([]byte("series-secret-0123456789"))
+	k2 := []byte("series-secret-0123456789")
+	wrongH := fault{"POST /hotp/validate wrong code (series)", rawReq("POST", "/hotp/validate", fmt.Sprintf(`{"secret":%q,"counter":5,"code":%q}`, s2, ref.HOTP(k2, 77, 6, 0))), false}
+	wrongT := fault{"POST /totp/validate wrong code (series)", rawReq("POST", "/totp/validate", fmt.Sprintf(`{"secret":%q,"timestamp":59,"code":%q}`, s2, ref.HOTP(k2, 77, 6, 0))), false}
+	wrongO := fault{"POST /ocra/validate wrong code (series)", rawReq("POST", "/ocra/validate", fmt.Sprintf(`{"secret":%q,"raw_suite":"OCRA-1:HOTP-SHA1-6:QN08","input":{"challenge_hex":"3132333435363738"},"code":"000001"}`, s2)), false}
+	rightH := fault{"POST /hotp/validate right code (series end)", rawReq("POST", "/hotp/validate", fmt.Sprintf(`{"secret":%q,"counter":5,"code":%q}`, s2, ref.HOTP(k2, 5, 6, 0))), false}
+	badSec := fault{"POST /hotp/validate undecodable secret (series)", rawReq("POST", "/hotp/validate", `{"secret":"!!!","counter":5,"code":"000000"}`), false} // a validation: the service may answer valid:false
+	broken := fault{"POST /totp/generate broken JSON (series)", rawReq("POST", "/totp/generate", `{"secret":`), true}
+	nope := fault{"GET /nope (series)", rawReq("GET", "/nope", ""), true}
+	badSuite := fault{"POST /ocra/suite unknown suite (series)", rawReq("POST", "/ocra/suite", `{"raw_suite":"OCRA-1:HOTP-SHA1-6:QN99"}`), true}
+	gen := fault{"POST /hotp/generate (series)", rawReq("POST", "/hotp/generate", fmt.Sprintf(`{"secret":%q,"counter":5}`, s2)), false}
+	rep := func(end fault, fs ...fault) []fault {
+		var out []fault
+		for i := 0; i < 40; i++ {
+			out = append(out, fs[i%len(fs)])
+		}
+		return append(out, end)
+	}
+	return [][]fault{rep(rightH, wrongH), rep(rightH, wrongT), rep(rightH, wrongO), rep(rightH, wrongH, wrongT, wrongO), rep(rightH, badSec), rep(gen, broken), rep(gen, nope), rep(gen, badSuite), rep(rightH, gen)}
+}
+
 func rawReq(method, path, body string) rreq {
 	b := body
 	return rreq{Method: method, Path: path, Raw: &b}
@@ -343,6 +372,8 @@ func runFaults(c c19Case, base map[string]uint64) (obs, bad string) {
 		}
 		var resp restResp
 		irt.SetBudget(c19Budget)
+		irt.VirtualTime(true)
+		irt.ResetWaited()
 		var pv any
 		blocked := false
 		func() {
@@ -355,6 +386,9 @@ func runFaults(c c19Case, base map[string]uint64) (obs, bad string) {
 		}
 		steps := irt.StepCount()
 		irt.SetBudget(0)
+		if w := irt.Waited(); w > c19MaxWait {
+			return obs, fmt.Sprintf("fault %d (%s): the handling of ONE request asks to wait %v in total (sleeps / timers; more than %v is not a bounded response time)", i, f.Name, w, c19MaxWait)
+		}
 		if pv != nil {
 			if irt.IsBudget(pv) {
 				return obs, fmt.Sprintf("fault %d (%s): more than %d statements of work for one request (work unbounded in a request parameter)", i, f.Name, int64(c19Budget))
@@ -380,7 +414,11 @@ func runFaults(c c19Case, base map[string]uint64) (obs, bad string) {
 		if pctx == nil {
 			pctx = &fasthttp.RequestCtx{}
 		}
+		irt.ResetWaited()
 		presp, d := doInProc(pctx, q)
+		if w := irt.Waited(); w > c19MaxWait {
+			return obs, fmt.Sprintf("probe %s after fault %d (%s): the handling of the probe asks to wait %v in total", q.Path, i, f.Name, w)
+		}
 		obs += fmt.Sprintf("(%d)", presp.Status)
 		if d != "" {
 			return obs, fmt.Sprintf("probe %s after fault %d (%s): %s", q.Path, i, f.Name, d)
@@ -571,6 +609,20 @@ func c19InProc(r *ev.Run, fl []fault, base map[string]uint64) {
 			}
 		}
 	}
+	if os.Getenv("VERIF_ONE") == "" {
+		for k, fs := range seriesFaults() {
+			for _, reuse := range []bool{true, false} {
+				if !mine() {
+					continue
+				}
+				probesIx := make([]int, len(fs))
+				for i := range probesIx {
+					probesIx[i] = k + 3*i
+				}
+				run(c19Case{fs, probesIx, reuse}, fmt.Sprintf("3 %d %v", k, reuse))
+			}
+		}
+	}
 	if shard == 0 && os.Getenv("VERIF_ONE") == "" {
 		// overlapping refused requests: all interleavings of every pair (and one triple) of classes, preemption-bounded
 		sf := schedFaults()
@@ -630,6 +682,14 @@ func c19InProc(r *ev.Run, fl []fault, base map[string]uint64) {
 func c19CaseOf(fl []fault, idx string) (c19Case, bool) {
 	var kind, i, j, p1, p2 int
 	var reuse bool
+	if n, _ := fmt.Sscanf(idx, "3 %d %v", &i, &reuse); n == 2 && i < len(seriesFaults()) {
+		fs := seriesFaults()[i]
+		probesIx := make([]int, len(fs))
+		for k := range probesIx {
+			probesIx[k] = i + 3*k
+		}
+		return c19Case{fs, probesIx, reuse}, true
+	}
 	if n, _ := fmt.Sscanf(idx, "1 %d %d %v", &i, &p1, &reuse); n == 3 && i < len(fl) {
 		return c19Case{[]fault{fl[i]}, []int{p1}, reuse}, true
 	}
